@@ -226,3 +226,69 @@ fn o1_5_endorse_total_4() {
         );
     }
 }
+
+// ---------------------------------------------------------------------------
+// O5.3 completeness of the rounded rectangle
+
+const ORDERS8: [[usize; 8]; 6] = [
+    [0, 1, 2, 3, 4, 5, 6, 7],
+    [4, 0, 5, 1, 6, 2, 7, 3],
+    [7, 6, 5, 4, 3, 2, 1, 0],
+    [2, 4, 0, 6, 3, 5, 1, 7],
+    [1, 0, 3, 2, 5, 4, 7, 6],
+    [4, 5, 6, 7, 0, 1, 2, 3],
+];
+
+fn rounded_complete(max_w: i32, max_h: i32, max_x: i32, max_y: i32) {
+    // corner characters in cells (x0,y0) .. (x0+w, y0+h); sides run through the cell centres,
+    // corner arcs have radius 0.5 as `. , ' \`` draw them between a horizontal and a vertical edge
+    let w = any_in(2, max_w);
+    let h = any_in(2, max_h);
+    let x0 = any_in(0, max_x);
+    let y0 = any_in(0, max_y);
+    let l = 2 * x0 + 1; // half units
+    let r = 2 * (x0 + w) + 1;
+    let t = 2 * y0 + 1; // units
+    let b = 2 * (y0 + h) + 1;
+    let br = [kani::any::<bool>(), kani::any(), kani::any(), kani::any()];
+    // half-unit x lattice: radius 0.5 = 1 half unit; y lattice in units: 0.5 is not on it, so build points directly
+    let pt = |hx: i32, y2: i32| Point::new(hx as f32 * 0.5, y2 as f32 * 0.5); // y in half units too
+    let (t2, b2) = (2 * t, 2 * b);
+    let frags = [
+        Fragment::Line(Line::new(pt(l + 1, t2), pt(r - 1, t2), br[0])), // top
+        Fragment::Line(Line::new(pt(l + 1, b2), pt(r - 1, b2), br[1])), // bottom
+        Fragment::Line(Line::new(pt(l, t2 + 1), pt(l, b2 - 1), br[2])), // left
+        Fragment::Line(Line::new(pt(r, t2 + 1), pt(r, b2 - 1), br[3])), // right
+        Fragment::Arc(Arc::new(pt(l + 1, t2), pt(l, t2 + 1), 0.5)),     // top-left    (as `.` writes it: arc(o, r))
+        Fragment::Arc(Arc::new(pt(r, t2 + 1), pt(r - 1, t2), 0.5)),     // top-right   (arc(r, k))
+        Fragment::Arc(Arc::new(pt(l, b2 - 1), pt(l + 1, b2), 0.5)),     // bottom-left (arc(h, o))
+        Fragment::Arc(Arc::new(pt(r - 1, b2), pt(r, b2 - 1), 0.5)),     // bottom-right(arc(k, h))
+    ];
+    let oi: usize = kani::any();
+    kani::assume(oi < 6);
+    let o = ORDERS8[oi];
+    let refs = [&frags[o[0]], &frags[o[1]], &frags[o[2]], &frags[o[3]], &frags[o[4]], &frags[o[5]], &frags[o[6]], &frags[o[7]]];
+    kani::cover!(w == max_w && h == max_h, "largest rounded box in the bound");
+    assert!(endorse_rect(&refs).is_none(), "O5.3 eight fragments are not a sharp rect");
+    match endorse_rounded_rect(&refs) {
+        Some(rr) => {
+            assert!(rr.start == pt(l, t2) && rr.end == pt(r, b2), "O5.3 the rounded rect has the position and size of the drawn box");
+            assert!(rr.radius == Some(0.5), "O5.3 the corner radius is the arcs' radius");
+            assert!(rr.is_broken == (br[0] || br[1] || br[2] || br[3]), "O5.3 rounded rect dashed iff a side is dashed");
+            assert!(!rr.is_filled, "O5.3 rounded rect is not filled");
+        }
+        None => assert!(false, "O5.3 the 4 sides and 4 corner arcs of a closed rounded box are endorsed as a rounded rect"),
+    }
+}
+
+//@ harness: o5_3_rounded_complete props=C05 tier=quick obl=O5.3 timeout=2400 mem=20
+//@ desc: the 4 sides and 4 quarter arcs (radius 0.5) of every closed rounded box with w in 2..12, h in 2..6 cells at every origin <= (64,64), in 6 representative slice orders, any dashedness of the sides: endorse_rounded_rect returns exactly that rect with rx = 0.5; powf stubbed by exact square; bounded Vec
+//@ encodes: endorse::endorse_rounded_rect, endorse::is_rounded_rect, endorse::right_angle_arcs, endorse::parallel_aabb_group, Arc::is_aabb_right_angle_arc, Rect::rounded_new
+#[kani::proof]
+#[kani::unwind(18)]
+#[kani::stub(std::vec::Vec::new, crate::kstub::vec_new_cap)]
+#[kani::stub(std::vec::Vec::push, crate::kstub::push_nogrow)]
+#[kani::stub(f32::powf, crate::kstub::powf_sq)]
+fn o5_3_rounded_complete() {
+    rounded_complete(12, 6, 64, 64);
+}
